@@ -121,6 +121,7 @@ func (a *adapter) Reset(init map[string]tla.Value) (engine.Fields, error) {
 	if a.u == nil {
 		a.u = mcUniverse()
 	}
+	txpool.VerifSetDefaultPoolCap(2) // Cap0 of spec/MCTxPool_*.cfg: capacity doubling and gc are reached within a few steps
 	a.pool = txpool.NewTxPool()
 	txpool.VerifPoolHook = func(p *txpool.TxPool, ev txpool.VerifPoolEvent) {
 		if p == a.pool {
@@ -196,6 +197,7 @@ func driveConc(args []string) error {
 		u.add("b1", box(int64(r*1000+101), 40, u.Tx["t1"], u.Tx["t2"]), "t1", "t2")
 		u.add("b2", box(int64(r*1000+102), 30, u.Tx["t2"], u.Tx["t3"]), "t2", "t3")
 		u.add("b3", box(int64(r*1000+103), 20, u.Tx["t4"]), "t4")
+		txpool.VerifSetDefaultPoolCap(4 << uint(r%4)) // 4, 8, 16, 32: growth happens at different fill levels
 		pool := txpool.NewTxPool()
 		var evs []txpool.VerifPoolEvent
 		txpool.VerifPoolHook = func(p *txpool.TxPool, ev txpool.VerifPoolEvent) {
@@ -204,6 +206,8 @@ func driveConc(args []string) error {
 			}
 		}
 		var wg sync.WaitGroup
+		var pmu sync.Mutex
+		var panics []string
 		for g := 0; g < *gor; g++ {
 			wg.Add(1)
 			go func(gs int64) {
@@ -211,18 +215,27 @@ func driveConc(args []string) error {
 				lr := rand.New(rand.NewSource(gs))
 				pick := func() *types.Transaction { return u.Tx[u.IDs[lr.Intn(len(u.IDs))]] }
 				for i := 0; i < *ops; i++ {
-					switch lr.Intn(8) {
-					case 0, 1, 2:
-						pool.AddTx(pick())
-					case 3:
-						pool.AddTxs(types.Transactions{pick(), pick(), pick()})
-					case 4:
-						pool.DelTxs(types.Transactions{pick()})
-					case 5:
-						pool.DelTxs(types.Transactions{pick(), pick()})
-					default:
-						pool.GetTxs(uint32(5+10*lr.Intn(5)), 1+lr.Intn(14))
-					}
+					func() {
+						defer func() {
+							if rec := recover(); rec != nil { // a panic of the pool itself: recorded, never consumable by the trace spec
+								pmu.Lock()
+								panics = append(panics, fmt.Sprintf("%v", rec))
+								pmu.Unlock()
+							}
+						}()
+						switch lr.Intn(8) {
+						case 0, 1, 2:
+							pool.AddTx(pick())
+						case 3:
+							pool.AddTxs(types.Transactions{pick(), pick(), pick()})
+						case 4:
+							pool.DelTxs(types.Transactions{pick()})
+						case 5:
+							pool.DelTxs(types.Transactions{pick(), pick()})
+						default:
+							pool.GetTxs(uint32(5+10*lr.Intn(5)), 1+lr.Intn(14))
+						}
+					}()
 				}
 			}(*seed*1000003 + int64(r*100+g))
 		}
@@ -240,6 +253,10 @@ func driveConc(args []string) error {
 			if err := enc.Encode(fl); err != nil {
 				return err
 			}
+			lines++
+		}
+		for _, p := range panics {
+			enc.Encode(map[string]interface{}{"ev": "Panic", "beh": r, "panic": p})
 			lines++
 		}
 	}
